@@ -641,7 +641,7 @@ Section Inv.
   (* ---- adfFileSeekStart_ on a clean state ---- *)
   Lemma seek_start_ok s L E ct : Inv s L E -> chg s = false -> Repr s L ct ->
     exists s', seek_start bs ofs nobad s = (true, s') /\ Inv s' L E /\ Repr s' L ct /\ pos s' = 0 /\ chg s' = false
-      /\ dk s' = dk s /\ fh s' = fh s /\ mw s' = mw s /\ mr s' = mr s.
+      /\ dk s' = dk s /\ fh s' = fh s /\ mw s' = mw s /\ mr s' = mr s /\ (fsize s <> 0 -> ndb s' = 1 /\ pind s' = 0 /\ cur s' <> 0).
   Proof.
     intros I Hc R. pose proof (inv_cb s L E I Hc) as C. pose proof I as (B & HL & _).
     unfold seek_start. set (s0 := set_cur (set_ndb (set_pind (set_pinx (set_pos s 0) 0) 0) 0) 0).
@@ -649,7 +649,7 @@ Section Inv.
     destruct (Z.eqb_spec (fsize s) 0) as [Hz|Hz].
     - assert (I0 : Inv s0 L E).
       { split; [apply (cb_frame s); try reflexivity; try assumption; apply (b_cext _ _ _ B)|]. split; [exact HL|]. left. splits; try reflexivity. exact Hz. }
-      exists s0. splits; try reflexivity; try assumption.
+      exists s0. splits; try reflexivity; try assumption; try contradiction.
       split; [destruct R as (Hl & _); exact Hl|]. intros i Hi. rewrite Hf0 in Hi. lia.
     - destruct (len_pos_of_size s L E C Hz) as (HlL & Hsz).
       assert (B0 : Base s0 L E) by (apply (cb_frame s); try reflexivity; try assumption; apply (b_cext _ _ _ B)).
@@ -659,7 +659,8 @@ Section Inv.
       assert (In_ : Inv sn L E).
       { apply (inv_loaded s sn L E 0 C); try assumption; try lia. }
       splits; try assumption; try reflexivity.
-      apply (repr_clean s sn L E ct); assumption.
+      + apply (repr_clean s sn L E ct); assumption.
+      + intros _. splits; try lia. rewrite Ncur. pose proof (b_ge2 _ _ _ B (nthZ L 0) ltac:(apply in_or_app; left; apply in_L_nth; lia)). lia.
   Qed.
 
   (* ---- adfPos2DataBlock, adfFileReadExtBlockN ---- *)
@@ -691,15 +692,217 @@ Section Inv.
   Lemma size2ext_len s L E : CB s L E -> size2ext (fsize s) bs = len E.
   Proof. intros (B & HL & _). unfold size2ext. rewrite <- HL. symmetry. apply (b_nE _ _ _ B). Qed.
 
-  Lemma read_ext_n_ok s L E ext : CB s L E -> 0 <= ext < len E ->
+  Lemma read_ext_n_ok t s L E ext : CB t L E -> dk s = dk t -> fh s = fh t -> 0 <= ext < len E ->
     read_ext_n bs nobad s ext = (true, set_cext s (Some (enc_x L E ext))).
   Proof.
-    intros C He. pose proof C as (B & HL & Hc). unfold read_ext_n. rewrite (size2ext_len s L E C).
+    intros C Hdk Hfh He. pose proof C as (B & HL & Hc). unfold read_ext_n. unfold fsize. rewrite Hfh. fold (fsize t). rewrite (size2ext_len t L E C).
     destruct (Z.ltb_spec ext 0); [lia|]. destruct (Z.ltb_spec (len E - 1) ext); [lia|]. cbn [orb].
     pose proof (b_hdr _ _ _ B) as (_ & _ & _ & _ & Hext). rewrite Hext. replace 0 with (-1 + 1) at 1 by lia.
     rewrite (ext_walk_ok L E ext (Z.to_nat (ext + 1)) s (-1)); try lia.
     - destruct (Z.ltb_spec (-1) ext); [|lia]. rewrite Z.eqb_refl. reflexivity.
-    - intros j Hj. apply (cb_ext s L E j C Hj).
+    - intros j Hj. rewrite Hdk. apply (cb_ext t L E j C Hj).
     - intros j Hj. apply (b_ge2 _ _ _ B). apply in_or_app. right. apply in_E_nth. assumption.
+  Qed.
+
+  (* ---- adfFileSeekExt_ for a position inside the file, on a clean state ---- *)
+  Lemma lenE_bound s L E k : CB s L E -> 72 <= k < len L -> 0 <= (k - 72) / 72 < len E.
+  Proof. intros (B & _) Hk. rewrite (lenE_of s L E B). destruct (Z.ltb_spec (len L) 1); lia. Qed.
+
+  Lemma seek_mid_ok t L E : CB t L E -> 0 <= pos t < fsize t -> cext_ok t L E ->
+    exists s', seek_mid bs nobad t = (true, s') /\ Inv s' L E /\ pos s' = pos t /\ chg s' = false /\ dk s' = dk t /\ fh s' = fh t /\ mw s' = mw t /\ mr s' = mr t
+      /\ ndb s' = pos t / bs + 1 /\ pind s' = pos t mod bs /\ cur s' <> 0.
+  Proof.
+    intros C Hp Hcx. pose proof C as (B & HL & Hc). set (p := pos t) in *. set (k := p / bs).
+    assert (Hk : 0 <= k < len L) by (subst k; rewrite HL; apply idx_in_range; lia).
+    assert (Hpm : 0 <= p mod bs < bs) by (apply Z.mod_pos_bound; lia).
+    assert (Hpk : p = k * bs + p mod bs) by (subst k; pose proof (Z.div_mod p bs ltac:(lia)); lia).
+    destruct (cb_data t L E k C Hk) as (d & Hd & Hlen & Hnx).
+    assert (Hge : 2 <= nthZ L k) by (apply (b_ge2 _ _ _ B); apply in_or_app; left; apply in_L_nth; assumption).
+    assert (Hrd : forall u, dk u = dk t -> rd_data bs nobad u (nthZ L k) = Some d).
+    { intros u Hu. unfold rd_data, nobad. rewrite Hu, Hd. destruct (Z.ltb_spec (nthZ L k) 1); [lia|]. reflexivity. }
+    pose proof (b_hdr _ _ _ B) as (_ & Htab & _).
+    unfold seek_mid. fold p. rewrite (pos2db_spec p ltac:(lia)). fold k.
+    destruct (Z.ltb_spec k 72) as [H72|H72].
+    - (* the header table *)
+      cbn -[Z.ltb Z.eqb nthZ]. rewrite Htab. rewrite nthZ_subZ by lia. replace (0 + k) with k by lia.
+      change (-1 =? -1) with true. cbn -[Z.ltb Z.eqb nthZ].
+      destruct (Z.ltb_spec (nthZ L k) 2); [lia|]. rewrite Hrd by reflexivity.
+      eexists. split; [reflexivity|]. cbn -[nthZ]. splits; try reflexivity; try assumption; try lia.
+      apply (inv_loaded t _ L E k C); cbn -[nthZ]; try reflexivity; try assumption; try lia.
+      unfold ext_cursor. lia.
+    - (* an extension block *)
+      set (ext := (k - 72) / 72). set (px := (k - 72) mod 72).
+      assert (He : 0 <= ext < len E) by (apply (lenE_bound t L E k C); lia).
+      assert (Hne : (ext =? -1) = false) by (destruct (Z.eqb_spec ext (-1)); [lia|reflexivity]).
+      cbn -[Z.ltb Z.eqb nthZ read_ext_n]. rewrite Hne.
+      assert (Hslot : nthZ (x_tab (enc_x L E ext)) px = nthZ L k).
+      { unfold enc_x. cbn [x_tab]. rewrite nthZ_subZ by (subst px; lia). f_equal. subst px ext. lia. }
+      set (t1 := set_ndb (set_pind (set_pinx t px) (p mod bs)) k).
+      set (t2 := match cext t with Some _ => t1 | None => set_cext t1 (Some zero_x) end).
+      assert (Hrx : read_ext_n bs nobad t2 ext = (true, set_cext t2 (Some (enc_x L E ext)))).
+      { apply (read_ext_n_ok t t2 L E ext C); try assumption; subst t2 t1; cbn; destruct (cext t); reflexivity. }
+      rewrite Hrx. cbn -[Z.ltb Z.eqb nthZ enc_x]. unfold cx. cbn -[Z.ltb Z.eqb nthZ enc_x].
+      assert (Hpx2 : pinx t2 = px) by (subst t2 t1; cbn; destruct (cext t); reflexivity).
+      rewrite Hpx2, Hslot. destruct (Z.ltb_spec (nthZ L k) 2); [lia|].
+      rewrite Hrd by (subst t2 t1; cbn; destruct (cext t); reflexivity).
+      eexists. split; [reflexivity|]. cbn -[nthZ enc_x].
+      assert (Hf2 : dk t2 = dk t /\ fh t2 = fh t /\ mw t2 = mw t /\ mr t2 = mr t /\ chg t2 = chg t /\ pos t2 = pos t /\ ndb t2 = k /\ pind t2 = p mod bs)
+        by (subst t2 t1; cbn; destruct (cext t); splits; reflexivity).
+      destruct Hf2 as (F1 & F2 & F3 & F4 & F5 & F6 & F7 & F8). rewrite ?F1, ?F2, ?F3, ?F4, ?F5, ?F6, ?F7, ?F8.
+      splits; try reflexivity; try assumption; try lia.
+      apply (inv_loaded t _ L E k C); cbn -[nthZ enc_x]; rewrite ?F1, ?F2, ?F5, ?F6, ?F7, ?F8; try reflexivity; try assumption; try lia.
+      + unfold cext_ok. cbn -[enc_x]. right. exists ext. split; [assumption|reflexivity].
+      + unfold ext_cursor. cbn -[enc_x]. intros _. split; reflexivity.
+  Qed.
+
+  (* ---- adfFileSeek ---- *)
+  Definition seek_tail (eofk : hstate -> bool * hstate) (s : hstate) (p : Z) : bool * hstate :=
+    let curDatablock := if 0 <? ndb s then ndb s - 1 else 0 in
+    if negb (cur s =? 0) && (curDatablock =? p / bs) then
+      let p' := Z.min p (fsize s) in (true, set_pind (set_pos s p') (p' mod bs))
+    else
+      let s1 := settle s in
+      if p =? 0 then seek_start bs ofs nobad s1 else
+      let s2 := set_pos s1 (Z.min p (fsize s1)) in
+      if pos s2 =? fsize s2 then eofk s2 else seek_mid bs nobad s2.
+
+  Lemma seek_gen_unfold eofk s p :
+    seek_gen bs ofs nobad eofk s p = if (pos s =? p) && negb (cur s =? 0) && negb (pind s =? bs) then (true, s) else seek_tail eofk s p.
+  Proof. reflexivity. Qed.
+
+  Lemma seek_tail_pos_irrel eofk s q p : chg s = false -> seek_tail eofk (set_pos s q) p = seek_tail eofk s p.
+  Proof.
+    intros Hc. unfold seek_tail, settle. cbn -[Z.ltb Z.eqb Z.min seek_start seek_mid]. rewrite Hc, andb_false_r.
+    destruct (negb (cur s =? 0) && ((if 0 <? ndb s then ndb s - 1 else 0) =? p / bs)); [reflexivity|].
+    destruct (p =? 0); [reflexivity|]. reflexivity.
+  Qed.
+
+  Definition seek_post (s s' : hstate) (L E ct : list Z) (p : Z) : Prop :=
+    Inv s' L E /\ Repr s' L ct /\ pos s' = p /\ fh s' = fh s /\ mw s' = mw s /\ mr s' = mr s.
+
+  Lemma normal_facts s L E : Inv s L E -> cur s <> 0 ->
+    cur s = nthZ L (ndb s - 1) /\ 1 <= ndb s <= len L /\ pos s = (ndb s - 1) * bs + pind s /\ 0 <= pind s <= bs /\ pos s <= fsize s.
+  Proof. intros (_ & _ & [(_ & Hz & _)|(H1 & H2 & H3 & H4 & H5 & _)]) Hc; [contradiction|]. splits; try assumption; lia. Qed.
+
+  Lemma last_block_bound s L E : Inv s L E -> 0 < len L -> (len L - 1) * bs < fsize s <= len L * bs.
+  Proof.
+    intros (B & HL & _) Hl. destruct (size2db_spec (fsize s) (b_size _ _ _ B)) as [Hs|[_ Hs]]; [|lia]. rewrite <- HL in Hs. exact Hs.
+  Qed.
+
+  Lemma seek_tail_ok eofk s L E ct p : Inv s L E -> Repr s L ct -> 0 <= p < fsize s ->
+    exists s', seek_tail eofk s p = (true, s') /\ seek_post s s' L E ct p /\ cur s' <> 0 /\ ndb s' = p / bs + 1 /\ pind s' = p mod bs.
+  Proof.
+    intros I R Hp. unfold seek_tail.
+    assert (Hpm : 0 <= p mod bs < bs) by (apply Z.mod_pos_bound; lia).
+    assert (Hpk : p = p / bs * bs + p mod bs) by (pose proof (Z.div_mod p bs ltac:(lia)); lia).
+    destruct (negb (cur s =? 0) && ((if 0 <? ndb s then ndb s - 1 else 0) =? p / bs)) eqn:Hsame.
+    - (* the position lies in the buffered block *)
+      apply andb_prop in Hsame. destruct Hsame as (Hc & Hk). destruct (Z.eqb_spec (cur s) 0) as [|Hc']; [discriminate|].
+      destruct (normal_facts s L E I Hc') as (Hcu & Hn & Hpos & Hpi & Hle).
+      destruct (Z.ltb_spec 0 (ndb s)); [|lia]. apply Z.eqb_eq in Hk.
+      replace (Z.min p (fsize s)) with p by lia. eexists. split; [reflexivity|]. pose proof I as (B & HL & C).
+      unfold seek_post. cbn. splits; try reflexivity; try assumption; try lia.
+      + split; [apply (base_frame s); try reflexivity; assumption|]. split; [exact HL|].
+        destruct C as [(_ & Hz & _)|(_ & _ & _ & _ & _ & Hlen & Hcl & Hnx & Hxc)]; [contradiction|]. right. cbn. splits; try assumption; try lia. unfold fsize in *. cbn. lia.
+    - destruct (settle_ok s L E I) as (I1 & Hcl & (Spos & Spinx & Spind & Sndb & Scur & Scext & Sfh & Smw & Smr & Sby & Snx) & Htr).
+      set (s1 := settle s) in *.
+      assert (R1 : Repr s1 L ct) by (apply (repr_same s s1 L ct); [unfold fsize; rewrite Sfh; reflexivity|destruct I as (_ & HL & _); exact HL|exact Htr|exact R]).
+      assert (Hf1 : fsize s1 = fsize s) by (unfold fsize; rewrite Sfh; reflexivity).
+      destruct (Z.eqb_spec p 0) as [H0|H0].
+      + subst p. destruct (seek_start_ok s1 L E ct I1 Hcl R1) as (s' & Hss & I' & R' & P' & C' & D' & F' & W' & M' & N').
+        exists s'. split; [exact Hss|]. destruct (N' ltac:(lia)) as (N1 & N2 & N3). rewrite Z.div_0_l, Z.mod_0_l by lia.
+        unfold seek_post. splits; try assumption; try congruence.
+      + cbv zeta. rewrite Hf1. replace (Z.min p (fsize s)) with p by lia.
+        change (pos (set_pos s1 p)) with p. change (fsize (set_pos s1 p)) with (fsize s1). rewrite Hf1.
+        destruct (Z.eqb_spec p (fsize s)); [lia|].
+        pose proof I1 as (B1 & HL1 & _).
+        assert (C2 : CB (set_pos s1 p) L E) by (split; [apply (base_frame s1); try reflexivity; assumption|split; [exact HL1|exact Hcl]]).
+        destruct (seek_mid_ok (set_pos s1 p) L E C2 ltac:(change (pos (set_pos s1 p)) with p; change (fsize (set_pos s1 p)) with (fsize s1); lia) (b_cext _ _ _ B1))
+          as (s' & Hsm & I' & P' & C' & D' & F' & W' & M' & N1 & N2 & N3).
+        exists s'. split; [exact Hsm|]. cbn in *. unfold seek_post. splits; try assumption; try congruence.
+        apply (repr_clean s1 s' L E ct); assumption.
+  Qed.
+
+  (* ---- adfFileSeekEOF_ on a clean state whose position has just been set to the end ---- *)
+  Lemma seek_eof_ok s1 L E ct : Inv s1 L E -> chg s1 = false -> Repr s1 L ct -> 0 < fsize s1 ->
+    exists s', seek_eof bs ofs nobad (set_pos s1 (fsize s1)) = (true, s') /\ seek_post s1 s' L E ct (fsize s1).
+  Proof.
+    intros I Hc R Hsz. unfold seek_eof. change (fsize (set_pos s1 (fsize s1))) with (fsize s1).
+    destruct (Z.eqb_spec (fsize s1) 0); [lia|]. rewrite seek_gen_unfold.
+    change (pos (set_pos s1 (fsize s1))) with (fsize s1). destruct (Z.eqb_spec (fsize s1) (fsize s1 - 1)); [lia|]. cbn [andb].
+    rewrite (seek_tail_pos_irrel _ s1 (fsize s1) (fsize s1 - 1) Hc).
+    destruct (seek_tail_ok (fun t => (false, t)) s1 L E ct (fsize s1 - 1) I R ltac:(lia)) as (s2 & Hst & (I2 & R2 & P2 & F2 & W2 & M2) & C2 & N2 & Pi2).
+    rewrite Hst. cbn [negb]. eexists. split; [reflexivity|].
+    assert (Hf2 : fsize s2 = fsize s1) by (unfold fsize; rewrite F2; reflexivity).
+    set (sz := fsize s1) in *. rewrite Hf2.
+    pose proof I2 as (B2 & HL2 & Cu2).
+    (* the last block: index (sz-1)/bs *)
+    assert (Hm : 0 <= sz mod bs < bs) by (apply Z.mod_pos_bound; lia).
+    pose proof (Z.div_mod sz bs ltac:(lia)) as Hdm. pose proof (Z.div_mod (sz - 1) bs ltac:(lia)) as Hdm1.
+    pose proof (Z.mod_pos_bound (sz - 1) bs Hbs) as Hm1.
+    set (pe := if sz mod bs =? 0 then bs else sz mod bs).
+    assert (Hpe : sz = (sz - 1) / bs * bs + pe /\ 0 < pe <= bs).
+    { subst pe. destruct (Z.eqb_spec (sz mod bs) 0) as [Hz|Hz].
+      - assert ((sz - 1) / bs = sz / bs - 1) by (symmetry; apply (Z.div_unique_pos _ _ _ (bs - 1)); lia). split; nia.
+      - assert ((sz - 1) / bs = sz / bs) by (symmetry; apply (Z.div_unique_pos _ _ _ (sz mod bs - 1)); lia). split; nia. }
+    unfold seek_post. cbn. splits; try assumption; try reflexivity.
+    - split; [apply (base_frame s2); try reflexivity; assumption|]. split; [exact HL2|].
+      destruct Cu2 as [(_ & Hz & _)|(Hcu & Hn & Hp & Hpi & Hle & Hlen & Hcl & Hnx & Hxc)]; [contradiction|].
+      right. unfold fsize in *. cbn. rewrite N2 in *. replace ((sz - 1) / bs + 1 - 1) with ((sz - 1) / bs) in * by lia.
+      splits; try assumption; try lia.
+  Qed.
+
+  Theorem fio_seek_ok s L E ct p : Inv s L E -> Repr s L ct -> 0 <= p ->
+    exists s', fio_seek bs ofs nobad s p = (true, s') /\ seek_post s s' L E ct (Z.min p (fsize s)).
+  Proof.
+    intros I R Hp. pose proof I as (B & HL & C). pose proof (b_size _ _ _ B) as Hsz.
+    unfold fio_seek. rewrite seek_gen_unfold.
+    destruct ((pos s =? p) && negb (cur s =? 0) && negb (pind s =? bs)) eqn:H1.
+    { apply andb_prop in H1. destruct H1 as (H1 & _). apply andb_prop in H1. destruct H1 as (H1 & H2). apply Z.eqb_eq in H1.
+      destruct (Z.eqb_spec (cur s) 0) as [|Hc]; [discriminate|]. destruct (normal_facts s L E I Hc) as (_ & _ & _ & _ & Hle).
+      exists s. split; [reflexivity|]. unfold seek_post. splits; try assumption; try reflexivity. lia. }
+    destruct (Z.ltb_spec p (fsize s)) as [Hlt|Hge].
+    { destruct (seek_tail_ok (seek_eof bs ofs nobad) s L E ct p I R ltac:(lia)) as (s' & Hst & Hpost & _).
+      exists s'. split; [exact Hst|]. replace (Z.min p (fsize s)) with p by lia. exact Hpost. }
+    (* at or beyond the end of the file *)
+    replace (Z.min p (fsize s)) with (fsize s) by lia. unfold seek_tail.
+    destruct (negb (cur s =? 0) && ((if 0 <? ndb s then ndb s - 1 else 0) =? p / bs)) eqn:Hsame.
+    - apply andb_prop in Hsame. destruct Hsame as (Hc & Hk). destruct (Z.eqb_spec (cur s) 0) as [|Hc']; [discriminate|].
+      destruct (normal_facts s L E I Hc') as (Hcu & Hn & Hpos & Hpi & Hle).
+      destruct (Z.ltb_spec 0 (ndb s)); [|lia]. apply Z.eqb_eq in Hk.
+      replace (Z.min p (fsize s)) with (fsize s) by lia. eexists. split; [reflexivity|].
+      pose proof (last_block_bound s L E I ltac:(lia)) as Hlb.
+      assert (Hpb : p / bs * bs <= p < p / bs * bs + bs) by (pose proof (Z.div_mod p bs ltac:(lia)); pose proof (Z.mod_pos_bound p bs Hbs); lia).
+      assert (Hq : fsize s / bs = ndb s - 1 /\ fsize s mod bs = fsize s - (ndb s - 1) * bs).
+      { assert (Hr : 0 <= fsize s - (ndb s - 1) * bs < bs) by nia.
+        split; [symmetry; apply (Z.div_unique_pos _ _ _ (fsize s - (ndb s - 1) * bs)); lia|symmetry; apply (Z.mod_unique_pos _ _ (ndb s - 1)); lia]. }
+      destruct Hq as (Hq1 & Hq2).
+      unfold seek_post. cbn. splits; try reflexivity; try assumption.
+      split; [apply (base_frame s); try reflexivity; assumption|]. split; [exact HL|].
+      destruct C as [(_ & Hz & _)|(_ & _ & _ & _ & _ & Hlen & Hcl & Hnx & Hxc)]; [contradiction|]. right. unfold fsize in *. cbn. rewrite Hq2.
+      splits; try assumption; try lia; nia.
+    - destruct (settle_ok s L E I) as (I1 & Hcl & (Spos & Spinx & Spind & Sndb & Scur & Scext & Sfh & Smw & Smr & Sby & Snx) & Htr).
+      set (s1 := settle s) in *.
+      assert (R1 : Repr s1 L ct) by (apply (repr_same s s1 L ct); [unfold fsize; rewrite Sfh; reflexivity|exact HL|exact Htr|exact R]).
+      assert (Hf1 : fsize s1 = fsize s) by (unfold fsize; rewrite Sfh; reflexivity).
+      destruct (Z.eqb_spec p 0) as [H0|H0].
+      + assert (Hz : fsize s = 0) by lia. destruct (seek_start_ok s1 L E ct I1 Hcl R1) as (s' & Hss & I' & R' & P' & C' & D' & F' & W' & M' & _).
+        exists s'. split; [exact Hss|]. unfold seek_post. splits; try assumption; try congruence.
+      + cbv zeta. rewrite Hf1. replace (Z.min p (fsize s)) with (fsize s) by lia.
+        change (pos (set_pos s1 (fsize s))) with (fsize s). change (fsize (set_pos s1 (fsize s))) with (fsize s1). rewrite Hf1, Z.eqb_refl.
+        destruct (Z.eq_dec (fsize s) 0) as [Hz|Hz].
+        * (* empty file *)
+          unfold seek_eof. change (fsize (set_pos s1 (fsize s))) with (fsize s1). rewrite Hf1. destruct (Z.eqb_spec (fsize s) 0); [|contradiction].
+          pose proof I1 as (B1 & HL1 & C1).
+          assert (I2 : Inv (set_pos s1 (fsize s)) L E).
+          { split; [apply (base_frame s1); try reflexivity; assumption|]. split; [exact HL1|].
+            destruct C1 as [(Hz1 & Hcu & Hp1 & Hn1 & Hpi1)|(_ & Hn1 & _)].
+            - left. cbn. splits; try assumption.
+            - exfalso. destruct (empty_L s1 L E I1 ltac:(lia)) as (-> & _). unfold len in Hn1. simpl in Hn1. lia. }
+          destruct (seek_start_ok (set_pos s1 (fsize s)) L E ct I2 Hcl) as (s' & Hss & I' & R' & P' & C' & D' & F' & W' & M' & _).
+          { apply (repr_frame s1); try reflexivity. exact R1. }
+          exists s'. split; [exact Hss|]. unfold seek_post. cbn in *. splits; try assumption; try congruence.
+        * rewrite <- Hf1. destruct (seek_eof_ok s1 L E ct I1 Hcl R1 ltac:(lia)) as (s' & Hse & (I' & R' & P' & F' & W' & M')).
+          exists s'. split; [exact Hse|]. unfold seek_post. splits; try assumption; try congruence.
   Qed.
 End Inv.
